@@ -2119,6 +2119,7 @@ def preprocess_file(
     pp_defs: dict = None,
     include_dirs: set = None,
     debug: bool = False,
+    include_stack: tuple = (),
 ):
     # Look for and mark excluded preprocessor paths in file
     # Initial implementation only looks for "if" and "ifndef" statements.
@@ -2240,6 +2241,8 @@ def preprocess_file(
         include_dirs = set()
     if file_path is not None:
         include_dirs.add(os.path.abspath(os.path.dirname(file_path)))
+        # Files currently being expanded, innermost last
+        include_stack = include_stack + (os.path.abspath(file_path),)
     pp_skips = []
     pp_defines = []
     pp_stack = []
@@ -2397,7 +2400,11 @@ def preprocess_file(
                 if os.path.isfile(include_path_tmp):
                     include_path = os.path.abspath(include_path_tmp)
                     break
-            if include_path is not None:
+            # A file that (directly or indirectly) includes itself is not expanded
+            # again: every nesting level would repeat all of its includes
+            if include_path in include_stack:
+                log.debug("%s !!! Recursive include skipped (%d)", line.strip(), i + 1)
+            elif include_path is not None:
                 try:
                     include_file = FortranFile(include_path)
                     err_string, _ = include_file.load_from_disk()
@@ -2409,6 +2416,7 @@ def preprocess_file(
                             pp_defs=defs_tmp,
                             include_dirs=include_dirs,
                             debug=debug,
+                            include_stack=include_stack,
                         )
                         log.debug("!!! Completed parsing include file\n")
 
